@@ -1889,21 +1889,15 @@ namespace awkward {
 
   const ContentPtr
   Content::getitem_next_array_wrap(const ContentPtr& outcontent,
-                                   const std::vector<int64_t>& shape) const {
-    int64_t length = 0;
-    if (shape.size() >= 2) {
-      length = (int64_t)shape[shape.size() - 2];
-    }
-    ContentPtr out =
-      std::make_shared<RegularArray>(Identities::none(),
-                                     util::Parameters(),
-                                     outcontent,
-                                     (int64_t)shape[shape.size() - 1],
-                                     length);
-    for (int64_t i = (int64_t)shape.size() - 2;  i >= 0;  i--) {
-      int64_t length = 0;
-      if (i > 0) {
-        length = (int64_t)shape[(size_t)(i - 1)];
+                                   const std::vector<int64_t>& shape,
+                                   int64_t outer_length) const {
+    ContentPtr out = outcontent;
+    for (int64_t i = (int64_t)shape.size() - 1;  i >= 0;  i--) {
+      // the length of this level (used if its size is zero): one entry per
+      // list and per combination of the dimensions before it
+      int64_t length = outer_length;
+      for (int64_t j = 0;  j < i;  j++) {
+        length *= (int64_t)shape[(size_t)j];
       }
       out = std::make_shared<RegularArray>(Identities::none(),
                                            util::Parameters(),
